@@ -104,6 +104,10 @@ func main() {
 				fmt.Printf("== %s: assumed\n", n)
 				continue
 			}
+			if con.Inline {
+				fmt.Printf("== %s: inline (verified inside its parent)\n", n)
+				continue
+			}
 			fn := P.Lookup(n)
 			if fn == nil {
 				fmt.Printf("== %s: FUNCTION NOT FOUND\n", n)
